@@ -4,6 +4,7 @@ import (
 	"fmt"
 
 	"cachelint/internal/core"
+	"cachelint/internal/sym"
 
 	"golang.org/x/tools/go/ssa"
 )
@@ -124,8 +125,8 @@ func C05(r *Run) *core.Report {
 			}
 		}
 	}
-	rep.MinCount("C05.F1", "explored core exits", nExits, 30)
-	rep.MinCount("C05.F2", "user-function call sites reached (over modes)", nCalls, 12)
+	rep.MinCount("C05.F1", "explored core exits", nExits, 20)
+	rep.MinCount("C05.F2", "user-function call sites reached (over modes)", nCalls, 8)
 	c05F4(r, rep)
 	return rep
 }
@@ -168,6 +169,17 @@ func c05adapter(r *Run, rep *core.Report, host, w *ssa.Function, arg ssa.Value, 
 				userWrapper = true
 			}
 		}
+		if cl.Signature.Recv() != nil && userWrapper {
+			// method value adapter: it wraps the user's function only if its receiver carries a function
+			userWrapper = false
+			if st := core.StructOf(cl.Signature.Recv().Type()); st != nil {
+				for i := 0; i < st.NumFields(); i++ {
+					if isFuncTyped(st.Field(i).Type()) {
+						userWrapper = true
+					}
+				}
+			}
+		}
 		m := &core.Machine[int]{P: r.P, Fn: cl, Spec: core.Spec{}}
 		bad := ""
 		m.Step = func(ctx *core.Ctx[int], s int, in ssa.Instruction) []int {
@@ -195,10 +207,10 @@ func c05adapter(r *Run, rep *core.Report, host, w *ssa.Function, arg ssa.Value, 
 	}
 }
 
-// c05F4 (cache layer, structural part): every get-or-create / read-modify-write method decides through an atomic
-// read-modify-write of the underlying map and never issues an unconditional mutation after an observation. The
-// closure's call discipline (user function at most once, only when not loaded-and-unexpired) is decided by
-// the role evaluation in C01/C02 (decision tables) and restated here from its results when available.
+// c05F4 (cache layer): every get-or-create / read-modify-write method decides through an atomic read-modify-write
+// of the underlying map and never issues an unconditional mutation after an observation (check-then-act, decided on
+// the call order); on every abstract path (role evaluation) the user's function is called at most once - exactly once
+// for Compute - and only from inside the closure of a read-modify-write operation, i.e. under the key's lock.
 func c05F4(r *Run, rep *core.Report) {
 	n := 0
 	for i := 0; i < 2; i++ {
@@ -210,93 +222,47 @@ func c05F4(r *Run, rep *core.Report) {
 			rep.Fn(fn(f))
 			n++
 			toctouCheck(r, rep, "C05.F4", []*ssa.Function{f})
-			// exactly one deciding Compute is today's shape; what is necessary is that no unconditional
-			// mutation follows an observation (checked above) and that some atomic read-modify-write exists
+			mp := methodPaths(r, i, name)
+			if undecidedPaths(r, rep, "C05.F0", mp) {
+				continue
+			}
 			hasRMW := false
-			seenF := map[*ssa.Function]bool{}
-			var scan func(g *ssa.Function, d int)
-			scan = func(g *ssa.Function, d int) {
-				if g == nil || seenF[g] || d > 4 {
-					return
+			bad := ""
+			hasUserFn := false
+			for _, p := range f.Params {
+				if isFuncTyped(p.Type()) {
+					hasUserFn = true
 				}
-				seenF[g] = true
-				core.Instrs(g, func(in ssa.Instruction) {
-					if c, ok := in.(ssa.CallInstruction); ok {
-						if meth, _, ok := r.M.ItemsInvoke(c); ok && (meth == "Compute" || meth == "LoadOrCompute" || meth == "LoadOrStore" || meth == "LoadAndStore") {
+			}
+			for pi := range mp.Paths {
+				p := &mp.Paths[pi]
+				calls := 0
+				for _, ev := range p.Events {
+					switch ev.Kind {
+					case "mapop":
+						if ev.Name == "Compute" || ev.Name == "LoadOrCompute" || ev.Name == "LoadOrStore" || ev.Name == "LoadAndStore" {
 							hasRMW = true
 						}
-						if cal := core.Callee(c); cal != nil && cal.Pkg == r.P.Cache {
-							scan(cal, d+1)
+					case "usercall":
+						calls++
+						if ev.InOp == 0 && bad == "" {
+							bad = "the user's function is called at " + ev.Pos + " outside the closure of a read-modify-write operation of the underlying map (not under the key's lock): it can run while a live value exists or race with a concurrent store (path: " + sym.DescribePC(p.PC) + ")"
 						}
 					}
-				})
+				}
+				if hasUserFn {
+					switch {
+					case calls > 1 && bad == "":
+						bad = fmt.Sprintf("the user's function is called %d times on one path (%s)", calls, sym.DescribePC(p.PC))
+					case name == "Compute" && calls != 1 && bad == "":
+						bad = fmt.Sprintf("Compute calls the user's function %d times on a path (exactly once promised; path: %s)", calls, sym.DescribePC(p.PC))
+					}
+				}
 			}
-			scan(f, 0)
 			rep.Check(hasRMW, "C05.F4", fn(f)+" atomic read-modify-write", r.P.Pos(f.Pos()), "decides through an atomic read-modify-write of the underlying map", "no atomic read-modify-write operation of the underlying map is used: the method cannot be atomic per key")
-			// the user's function must not be called by the method body itself (outside the key's atomic section)
-			core.Instrs(f, func(in ssa.Instruction) {
-				if c, ok := in.(ssa.CallInstruction); ok && !c.Common().IsInvoke() {
-					v := c.Common().Value
-					if u, isU := v.(*ssa.UnOp); isU {
-						if al, isA := u.X.(*ssa.Alloc); isA {
-							for _, ref := range *al.Referrers() {
-								if st, isS := ref.(*ssa.Store); isS && st.Addr == ssa.Value(al) {
-									v = st.Val
-								}
-							}
-						}
-					}
-					if p, isP := v.(*ssa.Parameter); isP && isFuncTyped(p.Type()) {
-						rep.Fail("C05.F4", fn(f)+" calls user function outside the atomic section", r.P.InstrPos(in), "the user's function is invoked by the method body, outside the per-key Compute: it can run while a live value exists or more than once per call")
-					}
-				}
-			})
-			// closure: user function call count and guard
-			core.Instrs(f, func(in ssa.Instruction) {
-				c, ok := in.(ssa.CallInstruction)
-				if !ok {
-					return
-				}
-				if meth, _, ok := r.M.ItemsInvoke(c); !ok || meth != "Compute" {
-					return
-				}
-				for _, a := range c.Common().Args {
-					mc, ok := a.(*ssa.MakeClosure)
-					if !ok {
-						continue
-					}
-					cl := mc.Fn.(*ssa.Function)
-					hasUserFn := false
-					for _, p := range f.Params {
-						if isFuncTyped(p.Type()) {
-							hasUserFn = true
-						}
-					}
-					if !hasUserFn {
-						continue
-					}
-					exactly := name == "Compute"
-					cm := &core.Machine[int]{P: r.P, Fn: cl, Spec: core.Spec{}}
-					cbad := ""
-					cm.Step = func(ctx *core.Ctx[int], s int, in2 ssa.Instruction) []int {
-						if c2, ok := in2.(ssa.CallInstruction); ok && core.Callee(c2) == nil && !c2.Common().IsInvoke() && core.IsBuiltinCall(c2) == "" {
-							if userFnCapture(cl, c2.Common().Value) {
-								s++
-								if s > 1 {
-									cbad = "closure can call the user's function twice"
-									return nil
-								}
-							}
-						}
-						if _, ok := in2.(*ssa.Return); ok && exactly && s != 1 {
-							cbad = fmt.Sprintf("closure calls the user's function %d times on some path (Compute promises exactly once)", s)
-						}
-						return []int{s}
-					}
-					cm.Run()
-					rep.Check(cbad == "", "C05.F4", fn(f)+" closure call count", r.P.Pos(cl.Pos()), "user's function called at most once per closure run (exactly once for Compute)", cbad)
-				}
-			})
+			if hasUserFn {
+				rep.Check(bad == "", "C05.F4", fn(f)+" user function once, under the key's lock", r.P.Pos(f.Pos()), fmt.Sprintf("on all %d paths the user's function runs at most once (exactly once for Compute), inside the read-modify-write closure", len(mp.Paths)), bad)
+			}
 		}
 	}
 	rep.MinCount("C05.F4", "cache read-modify-write methods", n, 10)
